@@ -56,7 +56,17 @@ TRUSTED = ["IEEE-754 / libm: the Float instance of the model calls the same corr
            "scipy.spatial.distance.cdist (igd): scipy is not installed in this sandbox, the harness lends benchmarks.tools a "
            "numpy stand-in with the contract cdist(A, Z)[i][j] = |A_i - Z_j| (a parameter of the model); with scipy present "
            "the real function is used",
-           "math.hypot as sqrt(a^2 + b^2) (diversity)"]
+           "math.hypot as sqrt(a^2 + b^2) (diversity)",
+           "translator tie: the rendering rules of harness/py2lean.py (its docstring lists the accepted Python sub-language and how each "
+           "construct is rendered) and the prelude lean/DeapModel/Core/GenPrelude.lean (Python's slices, negative indices, range, enumerate, "
+           "int -> float coercion, literal powers) are trusted; float literals are read from the SOURCE TEXT as exact decimals (decimal.Decimal, "
+           "checked to round to the parsed constant), never through repr; the parameter types come from the signature table of "
+           "harness/props/c20_translate.py (individual / data / position = list of floats, obj / n_objs = int, binary individuals = list of ints); "
+           "exceptions of float operations (x / 0.0, sqrt of a negative, overflow) are not rendered.  With it the hand-written models of the 45 "
+           "translated functions (32 of benchmarks/__init__.py, the 8 gp targets, cone / sphere / function1, trap / inv_trap) are tied to the "
+           "source BY PROOF (Gen.<f>_eq_model, re-checked by the kernel against the definitions regenerated from the current source on every "
+           "run); the remaining code (rand, chuang_f1-3, royal_road1/2, bin2float, the decorator classes, MovingPeaks, the quality indicators) "
+           "is tied by the differential correspondence only"]
 ASSUMPTIONS = ["inputs are finite doubles in (or near) the documented range, as Python lists or numpy arrays",
                "binary individuals are sequences of the ints 0/1 (the source rejects True/False and 1.0/0.0 through "
                "int(''.join(map(str, ...)), 2)); the model type for them is List Bool",
@@ -81,7 +91,34 @@ EXPLANATION = ("Front identities (DTLZ1 sum, DTLZ2-6 norm, ZDT f2 = g h), the ex
                "invariant and evaluation = max hold along every history of every object built by any of the constructor's "
                "three pfunc paths, and objects built from the same arguments are independent (mp_instances_independent) - "
                "the mpworld stream checks that the implementation shares nothing either; decorator setters install the "
-               "parameter in force (translate/scale/rotate_history), checked with re-used and in-place refilled arguments.")
+               "parameter in force (translate/scale/rotate_history), checked with re-used and in-place refilled arguments.  "
+               "Translator tie: the bodies of 45 benchmark functions are regenerated from the current source as Lean definitions (harness/py2lean.py) "
+               "and proved equal to the hand-written models over R on all inputs (lean/DeapModel/GenEq/C20.lean.tmpl, 71 theorems audited with the "
+               "others); a changed formula breaks an obligation whatever its size, a behaviour-preserving algebraic rewrite re-proves.  The table of "
+               "translated / refused functions of this run is evidence/C20.translated.json.")
+
+def translate(repo):
+    """translator tie (lib._translated_obligations): Lean definitions regenerated from `repo`'s current source + the
+    committed theorems `Gen.<f> = Bench.<f>` of lean/DeapModel/GenEq/C20.lean.tmpl (harness/py2lean.py)"""
+    from props import c20_translate
+    import json
+    import os
+    import lib
+    tr = c20_translate.translate(repo)
+    # the table "every public function of the five files: translated (with / without theorem) or refused (reason)";
+    # lib keeps res["translated"] in memory only, so the table is also written next to the evidence file
+    try:
+        os.makedirs(os.path.join(lib.OUT, "evidence"), exist_ok=True)
+        with open(os.path.join(lib.OUT, "evidence", "C20.translated.json"), "w") as fh:
+            json.dump({"definitions": len(tr["definitions"]), "theorems": len(tr["theorems"]),
+                       "refused": len(tr["refused"]), "problems": tr["problems"],
+                       "functions": [dict(file=f, name=n, status=st, detail=d) for f, n, st, d in tr["table"]],
+                       "theorem_names": tr["theorems"]}, fh, indent=1)
+            fh.write("\n")
+    except OSError:
+        pass
+    return tr
+
 
 TOL = 1e-9
 pi = math.pi
